@@ -145,7 +145,8 @@ def duration_ops(ctx, kind, how, ylo, yhi, shape=None, full=False):
     ctx.observe("r", fields(r) + [off_seconds(r)])
 
 
-def date_duration_ops(ctx, ylo, yhi):
+def date_duration_ops(ctx, how, ylo, yhi, full=False):
+    """date - d, date + (-d), date.subtract(**components): each against the oracle of `Date subtract`"""
     P = ctx.P
     y = ctx.year("y", ylo, yhi)
     m = ctx.int("m", 1, 12)
@@ -153,16 +154,19 @@ def date_duration_ops(ctx, ylo, yhi):
     ctx.assume(d <= cal.days_in_month(y, m))
     years = ctx.int("years", -1, 1)
     months = ctx.int("months", -14, 14)
-    weeks = ctx.int("weeks", -3, 3)
-    days = ctx.int("days", -40, 40)
+    weeks = ctx.int("weeks", -3, 3) if full else 0
+    days = ctx.int("days", -40, 40) if full else ctx.int("days", -13, 13)
     x = P.Date(y, m, d)
     dur = P.Duration(years=years, months=months, weeks=weeks, days=days)
-    a = x - dur
-    b = x + (-dur)
-    c = x.subtract(years=years, months=months, weeks=weeks, days=days)
-    ctx.claim("date - d == date.subtract(**components)", AND(a.year == c.year, a.month == c.month, a.day == c.day))
-    ctx.claim("date - d == date + (-d)", AND(a.year == b.year, a.month == b.month, a.day == b.day))
-    ctx.observe("r", [a.year, a.month, a.day, b.year, b.month, b.day])
+    if how == "sub":
+        r = x - dur
+    elif how == "add_neg":
+        r = x + (-dur)
+    else:
+        r = x.subtract(years=years, months=months, weeks=weeks, days=days)
+    y2, m2, d2, o = _shift(y, m, d, -years, -months, -(7 * weeks + days))
+    ctx.claim(f"{how}: same result as subtract() with the Duration's components", cal.ymd2ord(r.year, r.month, r.day) == o)
+    ctx.observe("r", [r.year, r.month, r.day])
 
 
 def cases(tier):
@@ -190,6 +194,8 @@ def cases(tier):
                             params=dict(kind=kind, how=how, ylo=w[0], yhi=w[1], shape=shape, full=(tier != "quick")),
                             bounds=f"every valid DateTime ({kind}) in years {w[0]}..{w[1]} x every Duration(months +-14, "
                                    "days +-40, hours up to +-71" + (", years +-1, weeks +-3, seconds up to +-86399)" if tier != "quick" else ")")))
-    out.append(dict(name="Date Duration operators", fn=date_duration_ops, params=dict(ylo=win[0], yhi=win[1]),
-                    bounds=f"every Date in years {win[0]}..{win[1]} x every Duration(years +-1, months +-14, weeks +-3, days +-40)"))
+    for how in ("sub", "add_neg", "subtract"):
+        out.append(dict(name=f"Date Duration {how}", fn=date_duration_ops, params=dict(how=how, ylo=win[0], yhi=win[1], full=(tier != "quick")),
+                        bounds=f"every Date in years {win[0]}..{win[1]} x every Duration(years +-1, months +-14, "
+                               + ("weeks +-3, days +-40)" if tier != "quick" else "days +-13)")))
     return out
